@@ -92,6 +92,12 @@ def gen_spec(rng, solver, df, pen, seed, coords, variant):
                 positive=bool(rng.integers(0, 2)) if pen in K.POSFLAG + ["WeightedGroupL2"] else False,
                 zero_weights=bool(rng.integers(0, 2)), knobs=knobs,
                 group_style=str(rng.choice(["contig", "perm", "trap"])), n_tasks=int(rng.integers(1, 4)),
+                # survival targets: all times distinct (every censored observation is then a time without any event),
+                # tied, or tied in non-adjacent rows
+                ties=[False, True, "nonadjacent"][variant % 3],
+                # empty columns (CSC) / all-zero columns, at the end of the feature axis more often than elsewhere
+                mutate_X=[None, "zero_col@first", "zero_col@last", "zero_col@last", None, "zero_col@last", None, "zero_cols_many"][variant % 8]
+                if p > 3 else None,
                 warm=str(rng.choice(["cold", "zero"])) if small_ws else str(rng.choice(["cold", "dense", "sparse"]))),
                    prob=0.08, n_range=(20, 50), p_range=(40, 120), p0=(1, 2, 5), fracs=(0.1, 0.3))
 
